@@ -87,7 +87,40 @@ class DatetimeArg(Arg):
                 out.append(datetime.time(h, mi, s, us, tzinfo=tz))
             else:
                 out.append(datetime.datetime(y, m, d, h, mi, s, us, tzinfo=tz))
+        if self.aware and not self.as_time:
+            # a time zone whose offset depends on the date (daylight saving): values just before / inside the
+            # transitions, where the offset of the value and that of a neighbouring instant differ; both folds
+            for hh, mm, ss, us2, fold in ((1, 59, 59, 999600, 0), (1, 59, 59, 999600, 1), (1, 30, 0, 0, 1), (1, 30, 0, 0, 0), (0, 59, 59, 999999, 0), (2, 0, 0, 0, 0)):
+                out.append(datetime.datetime(2021, 11, 7, hh, mm, ss, us2, tzinfo=DstTz(), fold=fold))
+                out.append(datetime.datetime(2021, 3, 14, min(hh + 1, 3), mm, ss, us2, tzinfo=DstTz()))
         return out
+
+
+class DstTz(datetime.tzinfo):
+    """US-Eastern-like rules for 2021: -4 h between 14 March 02:00 and 7 November 02:00 local, -5 h otherwise;
+    the repeated hour 01:00-02:00 on 7 November is told apart by fold"""
+
+    def _dst(self, dt):
+        start = datetime.datetime(2021, 3, 14, 2)
+        end = datetime.datetime(2021, 11, 7, 1)         # from 01:00 on, fold decides
+        n = dt.replace(tzinfo=None)
+        if start <= n < end:
+            return True
+        if end <= n < end + datetime.timedelta(hours=1):
+            return getattr(dt, "fold", 0) == 0
+        return False
+
+    def utcoffset(self, dt):
+        return datetime.timedelta(hours=-4 if self._dst(dt) else -5)
+
+    def dst(self, dt):
+        return datetime.timedelta(hours=1 if self._dst(dt) else 0)
+
+    def tzname(self, dt):
+        return "EDT" if self._dst(dt) else "EST"
+
+    def __repr__(self):
+        return "DstTz()"
 
 
 def dtinst(cls=Types.DateTime):
